@@ -33,7 +33,7 @@ ELEMS = {
     'if': ['_c', 'é', 'not q', '(p)'],
     'deco': ['_d', 'é', 'd.e(1)'],
     'stmt': ['_ = 1', 'é = "é"', 'pass'],
-    'handler': ['except _E: pass', 'except É as é: pass'],
+    'handler': ['except _E: pass', 'except É as é: pass', 'except* _G: pass'],
     'case': ['case _x: pass', 'case "é": pass'],
     'cmp': ['_x', 'é', '-q', '(p)', '< _x', '_x <', 'is not é', 'é not in', '== (p)', 'in\n é'],
 }
@@ -101,6 +101,9 @@ CONTAINERS = [
     ('type É[É: "é", T] = x', 'TypeAlias', 'type_params', 'type_param'),
     ('global a', 'Global', 'names', 'name'), ('global a, b', 'Global', 'names', 'name'), ('def f():\n    nonlocal é, b', 'Nonlocal', 'names', 'name'),
     ('try: pass\nexcept A: pass', 'Try', 'handlers', 'handler'), ('try: pass\nexcept A: pass\nexcept É as é: pass\nelse: pass', 'Try', 'handlers', 'handler'),
+    ('try: pass\nexcept A: pass\nelse: pass\nfinally: pass', 'Try', 'handlers', 'handler'), ('try: pass\nexcept A: pass\nfinally: pass', 'Try', 'handlers', 'handler'),
+    ('try: pass\nexcept* A: pass\nfinally: pass', 'TryStar', 'handlers', 'handler'),
+    ('try: pass\nexcept* A: pass\nexcept* É as é: pass\nelse: pass\nfinally: pass', 'TryStar', 'handlers', 'handler'),
     ('match s:\n    case 1: pass', 'Match', 'cases', 'case'), ('match s:\n    case 1: pass\n    case "é": pass', 'Match', 'cases', 'case'),
 ]
 
